@@ -249,7 +249,10 @@ def build_ops():
                     # earlier activity IN THE SAME context that is unrelated because it failed: a rejected (or raising)
                     # check; the probe's expected verdict is decided from the bindings in force BEFORE it
                     if isinstance(mid, tuple):      # ("call", thunk): a decorated call - its bindings die with it
-                        mid[1]()
+                        try:
+                            mid[1]()
+                        except BaseException as e:  # noqa - the call is well-typed and its body's checks are consistent
+                            h["mid"] = "X:" + type(e).__name__
                     else:
                         try:
                             h["mid"] = "F" if mid() is False else "T"
@@ -354,10 +357,46 @@ def build_ops():
         buf = io.StringIO()
         with contextlib.redirect_stdout(buf):
             jaxtyping.print_bindings()
-        out["direct"] = {"toplevel_bindings": buf.getvalue().strip(), "depth": R.stack_depth(), "flags": R.flags()}
+        out["direct"] = {"toplevel_bindings": buf.getvalue().strip(), "depth": R.stack_depth(), "flags": R.flags(),
+                         "hooked_nested": hooked_nested_probe()}
         return out
 
     return ops, F, probes
+
+
+_HOOKED = {}
+
+
+def hooked_nested_probe():
+    """a module imported (once per process) under `with install_import_hook(...)`: functions DEFINED LATER by its code
+    (a nested def executed on every call) must still be instrumented, whatever hooks came and went meanwhile"""
+    import gc
+    import importlib
+    import sys
+    import tempfile
+    from jaxtyping import install_import_hook, TypeCheckError
+    if "mod" not in _HOOKED:
+        d = tempfile.mkdtemp(prefix="verif_c12_")
+        name = f"verif_c12_hooked_{os.getpid()}"
+        with open(os.path.join(d, name + ".py"), "w") as f:
+            f.write("def outer():\n    def inner(x: int):\n        return x\n    return inner\n")
+        sys.path.insert(0, d)
+        with install_import_hook(name, "beartype.beartype"):
+            _HOOKED["mod"] = importlib.import_module(name)
+        sys.path.remove(d)
+        import shutil
+        shutil.rmtree(d, ignore_errors=True)
+    gc.collect()
+    try:
+        inner = _HOOKED["mod"].outer()
+        r1 = inner(1)
+        try:
+            inner("not an int")
+            return f"ok:{r1}/accepted"
+        except TypeCheckError:
+            return f"ok:{r1}/TCE"
+    except BaseException as e:  # noqa
+        return "Exc:" + type(e).__name__
 
 
 def worker(args):
@@ -432,9 +471,11 @@ def main(tier):
             for line in open(j[1]):
                 r = json.loads(line)
                 for p in r["probes"]["arr"]:
-                    if p.get("mid") == "T":
-                        # the interposed checks are rejected by construction (whatever happened before in the process)
-                        chk.disagree(f"C12:history:{hkey(r['history'])}:probe={p['tag']}:interposed-check-accepted",
+                    if p.get("mid") == "T" or str(p.get("mid", "")).startswith("X:"):
+                        # the interposed checks are rejected by construction (whatever happened before in the process);
+                        # the interposed calls are well-typed and their bodies' checks consistent in a context of their own
+                        chk.disagree(f"C12:history:{hkey(r['history'])}:probe={p['tag']}:interposed-" +
+                                     ("check-accepted" if p["mid"] == "T" else "call-raised-" + p["mid"][2:]),
                                      {"history": r["history"], "probe": p["tag"]})
                     p["id"] = rid
                     meta[rid] = (r, p["tag"])
@@ -446,6 +487,9 @@ def main(tier):
                     pt_rows.append(p)
                     rid += 1
                 d = r["probes"]["direct"]
+                if d.get("hooked_nested", "ok:1/TCE") != "ok:1/TCE":
+                    chk.disagree(f"C12:history:{hkey(r['history'])}:probe=hooked_nested_def", {"history": r["history"],
+                                 "observed": r["probes"]["direct"], "expected": "inner(1) returns 1, inner('not an int') raises TypeCheckError"})
                 if d["toplevel_bindings"] or d["depth"] not in (0, None) or d["flags"].get("flatten") or d["flags"].get("label"):
                     chk.disagree(f"C12:history:{hkey(r['history'])}:probe=quiescence", {"history": r["history"], "observed": d})
         def split(rows, stem):
